@@ -622,6 +622,14 @@ impl Board {
             return false;
         }
 
+        // make sure neither side has more pieces than a chess set (the move generator's
+        // fixed-size move list relies on at most 16 pieces per side)
+        if self.color_combined(Color::White).popcnt() > 16
+            || self.color_combined(Color::Black).popcnt() > 16
+        {
+            return false;
+        }
+
         // make sure the en_passant square has a pawn on it of the right color
         match self.en_passant {
             None => {}
